@@ -245,7 +245,7 @@ pub fn repo_sudachi_dir() -> String {
 }
 
 /// which instance of the model mirrors the tree: does `replace_slow` still ask for `.earliest(true)`?
-fn impl_earliest() -> bool {
+pub(crate) fn impl_earliest() -> bool {
     let p = format!("{}/src/plugin/input_text/default_input_text/mod.rs", repo_sudachi_dir());
     match std::fs::read_to_string(p) {
         Ok(s) => s.contains(".earliest(true)"),
@@ -355,7 +355,7 @@ fn fact(c: char, cl: &Classes) -> String {
     )
 }
 
-fn facts_for(seed_chars: &BTreeSet<char>, cl: &Classes) -> String {
+pub(crate) fn facts_for(seed_chars: &BTreeSet<char>, cl: &Classes) -> String {
     let mut all = seed_chars.clone();
     for &c in seed_chars {
         all.extend(c.to_lowercase());
@@ -514,7 +514,7 @@ fn run_plugins_recycled(dic: &JapaneseDictionary, buf: &mut InputBuffer, text: &
     }
 }
 
-fn plugin_json(cfg: &Cfg, p: char) -> String {
+pub(crate) fn plugin_json(cfg: &Cfg, p: char) -> String {
     let chars_json = |v: &[char]| -> String {
         let items: Vec<String> = v.iter().map(|c| serde_json::to_string(&c.to_string()).unwrap()).collect();
         format!("[{}]", items.join(","))
@@ -532,7 +532,7 @@ fn plugin_json(cfg: &Cfg, p: char) -> String {
     }
 }
 
-fn setup_payload(cfg: &Cfg, earliest: bool) -> String {
+pub(crate) fn setup_payload(cfg: &Cfg, earliest: bool) -> String {
     let mut s = format!("pipe={} early={}", cfg.pipe.iter().collect::<String>(), earliest as u8);
     if cfg.pipe.contains(&'D') {
         s.push_str(&format!(" def={}", hex(cfg.def_text.as_bytes())));
@@ -548,7 +548,7 @@ fn setup_payload(cfg: &Cfg, earliest: bool) -> String {
     s
 }
 
-fn cfg_chars(cfg: &Cfg) -> BTreeSet<char> {
+pub(crate) fn cfg_chars(cfg: &Cfg) -> BTreeSet<char> {
     let mut s = BTreeSet::new();
     if let Some((ign, pairs)) = &cfg.table {
         s.extend(ign.iter());
